@@ -108,7 +108,8 @@ func (o Options) Len() int {
 	length := 0
 
 	for _, v := range o {
-		length += 2 + 2 + len(v.value)
+		// what Serialize emits for v: the 16-bit length field, not len(v.value)
+		length += 2 + 2 + int(v.length)
 	}
 
 	return length
